@@ -22,17 +22,17 @@ CLAIMS.update({
     'C02': ('Bounded symbolic model checking of RealRays.refract/reflect, CoordinateSystem.localize/globalize, Plane/StandardGeometry '
             'distance and normal, Surface._trace_real orchestration and a 2-surface wiring run: per-surface step contracts from an arbitrary '
             'incoming ray (unit direction, any normal, any indices) are SMT queries (vector Snell law, unit norm, half-space, on-surface, '
-            'nearest root, OPD), decided unsat; induction over surfaces lifts them to any lens of such surfaces. Iterative (Newton-Raphson) surfaces: loop contract of the intersection - a valid ray ends within tolerance or after max_iter steps, also in a bundle with a lost ray (max_iter = 2, one ray geometry in the quick tier).',
+            'nearest root, OPD), decided unsat; induction over surfaces lifts them to any lens of such surfaces. Iterative (Newton-Raphson) surfaces: loop contract of the intersection - a valid ray ends within tolerance or after max_iter steps, also in a bundle with a lost ray (max_iter = 2, one ray geometry in the quick tier). Normals of xy-polynomial (non-square coefficient arrays) and even-asphere surfaces are the gradient of the documented sag.',
             'floats as exact reals; one ray per trace; conic step contract for hits on the vertex sheet; Newton-Raphson geometries only in the thorough tier with a bounded unrolling; tangent rays (d.n = 0) excluded'),
 })
 CLAIMS['C03'] = ('Bounded symbolic model checking of the real RayGenerator / Optic.trace / trace_generic / FieldGroup.get_vig_factor / distribution code: '
     'every legal aperture x field x object x telecentric combination on K<=2 lenses (all numbers symbolic, pupil position from an independent ABCD oracle): '
     'origin, field angle, collinearity with the pupil point, unit direction towards the lens, intensity/OPD/wavelength are SMT queries decided unsat; every illegal '
-    'combination must raise ValueError on all paths; distributions: count, unit disk, shrink-only vignetting for symbolic factors. Curved (spherical) object surfaces: height fields start ON the object surface. The random distribution is executed with a stubbed generator (arbitrary r, theta).',
+    'combination must raise ValueError on all paths; distributions: count, unit disk, shrink-only vignetting for symbolic factors. Curved (spherical) object surfaces: height fields start ON the object surface. The random distribution is executed with a stubbed generator (arbitrary r, theta). Field lists whose largest field is negative.',
     'floats as exact reals; thickness >= 0; aperture value yields a positive EPD; fields along y; distribution sizes <= 8 (12 thorough); random generator stubbed')
 CLAIMS['C14'] = ('Bounded symbolic model checking of the real OptimizationProblem / OptimizerGeneric / LeastSquares / DualAnnealing / DifferentialEvolution / Variable / Operand code '
     'against a nondeterministic stub of scipy.optimize (documented contract: evaluates the objective at x0 and at <=2 arbitrary points inside the bounds it was given, returns the best; '
-    'workers=-1 evaluates on copies): post-state = result.x, merit = result.fun, not worse than start, inside bounds, pickups/solves satisfied, undo restores; merit formula; every variable type is a faithful handle with bounds in value units. All SMT queries over symbolic lens numbers, evaluation points, targets, weights; operands are uninterpreted functions.',
+    'workers=-1 evaluates on copies): post-state = result.x, merit = result.fun, not worse than start, inside bounds, pickups/solves satisfied, undo restores; merit formula; every variable type is a faithful handle with bounds in value units. All SMT queries over symbolic lens numbers, evaluation points, targets, weights; operands are uninterpreted functions. The object distance as a thickness variable.',
     'scipy optimisers are stubbed by their contract (that they meet it is not checked); operands uninterpreted; <=3 evaluations, <=2 variables, sequences <=4; floats as reals')
 CLAIMS['C16'] = ('Bounded symbolic model checking of RadialAperture.clip, RealRays.propagate (Beer-Lambert), SimpleCoating, Surface._trace_real and a 2-surface Optic: '
     'step contract from an arbitrary ray/intensity: zero outside the aperture in the surface frame, exp argument -4 pi k d 1e3/lambda, coating factor, nothing else; 0<=i\'<=i; records = ray intensity; RayFan intensities = traced ones (UF tracer). Apertures that were rescaled, re-assigned or reloaded clip at their current radii.',
@@ -43,11 +43,11 @@ CLAIMS['C15'] = ('Bounded symbolic model checking of the real Tolerancing / Pert
     'numpy RNG stubbed (seeded = function of seed and draw index); scipy stubbed by contract; pandas.DataFrame replaced by a list in symbolic mode; <=2 perturbations x <=3 trials')
 CLAIMS['C13'] = ('Bounded symbolic model checking of frame conditions on the real code: caller-owned arrays keep their values across trace/trace_generic (symbolic vignetting), '
     'prescription snapshot and to_dict() unchanged by paraxial / aberration / trace queries, repeated query = same terms, third call of (A,B,A) equals the first (no stale state or caches), '
-    'ray 0 of a 2-ray batch = the 1-ray trace, SpotDiagram queries leave the stored data untouched (uninterpreted tracer). Equality of symbolic result terms is decided by the solver. Field lists declared out of ascending order stay as declared.',
+    'ray 0 of a 2-ray batch = the 1-ray trace, SpotDiagram queries leave the stored data untouched (uninterpreted tracer). Equality of symbolic result terms is decided by the solver. Field lists declared out of ascending order stay as declared. A ray on an iterative (Newton-Raphson) surface gets the same distance alone and in a bundle.',
     'what is decided is that the second call computes the same real function of the same state; bit-identity of floats is not claimed; Newton-Raphson batch coupling only in the thorough tier; sequences of <=3 calls, <=3 rays')
 CLAIMS['C19'] = ('Bounded symbolic model checking of Optic.to_dict / from_dict and every registered to_dict/from_dict pair: for K=2 lenses covering each geometry, medium, coating, BSDF, aperture, field/wavelength/unit, '
     'aperture type, telecentric flag, pickup, solve, polarization state - all numeric leaves symbolic - the reloaded lens has a leaf-wise equal dictionary form (solver-decided term equality), equal prescription snapshot, equal paraxial terms and equal ray-trace records; '
-    'every leaf is a JSON type; the same after each edit operation. The concrete replay additionally goes through a real JSON file.',
+    'every leaf is a JSON type; the same after each edit operation. The concrete replay additionally goes through a real JSON file. The same glass name from two catalogues in one lens.',
     'byte-level float round trip of JSON is CPython repr/float contract (assumed); catalogue Material lookups not symbolic; K=2; numba-compiled BSDF parameters concrete')
 CLAIMS['C20'] = ('Bounded symbolic model checking of the real ZemaxFileReader + ZemaxToOpticConverter + AbbeMaterial on generated .zmx files (UTF-8 and UTF-16) whose numeric tokens are symbolic '
     '(bound through a shadowed float() in the reader): surface count, radii = 1/CURV or infinity, vertex = running sums of DISZ, conic, PARM n -> coefficient n-1, media (model glass n_d/V_d, catalogue glass, air), stop, '
